@@ -14,7 +14,7 @@ CLAIMED = {
     ),
     "C01": dict(
         text="Coq theorems, end to end on the joint model (logical LSM state machine and persistence protocol in lockstep, C01_stack_*): for every run of writes, rotations, flushes, compactions and trivial moves, any number of sessions each ending in a crash at any file operation (last append torn anywhere) or cleanly, the state rebuilt by recovery is well formed and a get through the real lookup path returns exactly the value of the latest acknowledged write (C01_stack_jreach_h_get, C01_stack_stack_crash_get). On the LSM model: the lookup path (memtable, immutable memtable, level-0 files newest first, one file per deeper level found by binary search) returns exactly the newest entry at or below the sequence bound among ALL entries, for every well-formed state (db_get_correct); a write batch updates the result like a sorted map (C01_write_then_get); every admissible run of writes, rotations, flushes, compactions, trivial moves keeps the state well formed (reachable_wf, shared with C10). Tied to the code by whole-database histories compared with the extracted map specification, by judging every structural dump of the real database with the extracted invariant lsm_wf_b and lookup path, and by function-level differential execution of the lookup-candidate functions.",
-        note="Trusted: Coq kernel, extraction, glue, the DB::verif_dump hook. Every installed version change is also re-derived step by step by the LSM model (stepcheck). Table files answer lookups as proved in C13; the LRU cache in front of blocks and tables never serves a stale or invented value and keeps an entry while fewer than capacity other keys are used (C01_cache_*), tied to the real LRUCache operation by operation. After any crash the recovered contents are those of the acknowledged batches (C02).",
+        note="Trusted: Coq kernel, extraction, glue, the DB::verif_dump hook. Every installed version change is also re-derived step by step by the LSM model (stepcheck). Table files answer lookups as proved in C13; the LRU cache in front of blocks and tables never serves a stale or invented value and keeps an entry while fewer than capacity other keys are used, and read-through use (get; on a miss read the immutable file and insert) answers the file's contents for every capacity and every sequence of reads and evictions (C01_cache_*), tied to the real LRUCache operation by operation. After any crash the recovered contents are those of the acknowledged batches (C02).",
         design="6 / C01",
         technique="machine-checked proof in Coq (invariant by induction over all step sequences with oracle-chosen internal steps; refinement to a sorted map) + checked model-code correspondence",
     ),
